@@ -15,7 +15,7 @@ from ..util import Result
 from .c18 import gen_any
 
 EXCLUDED = {"SUBSCRIBE", "UNSUBSCRIBE", "PSUBSCRIBE", "PUNSUBSCRIBE", "MONITOR", "QUIT", "SHUTDOWN", "SYNC", "PSYNC",
-            "BLPOP", "BRPOP", "SLEEP", "VERIF", "REPLICAOF", "SLAVEOF", "MULTI", "EXEC", "DISCARD", "WATCH", "CLIENT",
+            "SLEEP", "VERIF", "REPLICAOF", "SLAVEOF", "MULTI", "EXEC", "DISCARD", "WATCH", "CLIENT",
             "AUTH", "SELECT", "SAVE", "BGSAVE", "BGREWRITEAOF", "REPLCONF", "XREAD", "XREADGROUP"}
 HOSTILE = [b"\r\n", b"a\r\nb", b"\r\n+OK\r\n", b"\r\n$5\r\n", b"\x00", b"-ERR x\r\n", b"*1\r\n$4\r\nPING\r\n", b":1\r\n",
            b"x" * 65536, b"\n", b"\r"]
@@ -87,6 +87,27 @@ def build_pipeline(rng, m, n, pure=False):
         else:
             a = [b"ECHO", b"tag-%d-%d" % (i, rng.randrange(10 ** 9))]
         cmds.append(a)
+    # Blocking pops inside a pipeline: with a short finite timeout they answer nil (or pop at once) and the
+    # commands behind them must wait for that answer. At most three per pipeline (each may take its timeout).
+    nblock = 0
+    for i, a in enumerate(cmds):
+        if a and a[0].upper() in (b"BLPOP", b"BRPOP"):
+            nblock += 1
+            if nblock > 3 or len(a) < 3:
+                cmds[i] = [b"PING"]
+            else:
+                cmds[i] = a[:-1] + [rng.choice([b"0.02", b"0.05", b"0.1"])]
+    if not pure and nblock == 0 and rng.random() < 0.25 and len(cmds) >= 2:
+        outside, inside = [], False
+        for i, a in enumerate(cmds):
+            if not inside:
+                outside.append(i)
+            if a and a[0].upper() == b"MULTI":
+                inside = True
+            elif a and a[0].upper() in (b"EXEC", b"DISCARD"):
+                inside = False
+        pos = rng.choice(outside)
+        cmds[pos:pos] = [[rng.choice([b"BLPOP", b"BRPOP"]), rng.choice(gen.KEYS), b"0.03"], [b"ECHO", b"behind-blocking-%d" % rng.randrange(10 ** 9)]]
     cmds.append([b"ECHO", b"last-%d" % rng.randrange(10 ** 9)])
     return cmds
 
@@ -308,6 +329,47 @@ def directed(srv, res, rng):
         isinstance(got[3], list) and len(got[3]) == 2 and got[3][1] == resp.OK and got[4] == b"end"
     if not ok:
         res.violation("framing/blocking-pop-inside-multi", "[MULTI, BLPOP nolist 0, SET, EXEC, ECHO end] -> %s" % resp.show(got))
+    # commands pipelined behind a blocking pop are answered after it - when it times out ...
+    for pop in (b"BLPOP", b"BRPOP"):
+        c = srv.client(timeout=5)
+        c.cmd("DEL", "bq", "bq:flag")
+        c.send_raw(b"".join(resp.encode(a) for a in [[pop, b"bq", b"0.15"], [b"SET", b"bq:flag", b"1"], [b"ECHO", b"after-timeout"]]))
+        got = []
+        try:
+            for _ in range(3):
+                got.append(c.recv())
+        except (Timeout, Closed, resp.ProtocolError) as e:
+            got.append(type(e).__name__)
+        c.close()
+        res.evaluations += 3
+        res.cell("directed", "behind-blocking-pop", "timeout", pop.decode())
+        if got != [resp.NULL_ARRAY, resp.OK, b"after-timeout"]:
+            res.violation("order/behind-blocking-pop/timeout", "[%s bq 0.15, SET, ECHO] in one write -> %s, expected [nil, OK, 'after-timeout']" % (pop.decode(), resp.show(got)))
+        # ... and when another client serves it; until then the commands behind it have no effect
+        c = srv.client(timeout=5)
+        o = srv.client(timeout=5)
+        o.cmd("DEL", "bq", "bq:flag")
+        c.send_raw(b"".join(resp.encode(a) for a in [[pop, b"bq", b"0"], [b"SET", b"bq:flag", b"1"], [pop, b"bq", b"0"], [b"ECHO", b"after-serve"]]))
+        server.wait_loops(o, 4)
+        early = o.cmd("EXISTS", "bq:flag")
+        o.cmd("RPUSH", "bq", "v1")
+        server.wait_loops(o, 4)
+        mid = o.cmd("EXISTS", "bq:flag")
+        o.cmd("RPUSH", "bq", "v2")
+        got = []
+        try:
+            for _ in range(4):
+                got.append(c.recv())
+        except (Timeout, Closed, resp.ProtocolError) as e:
+            got.append(type(e).__name__)
+        c.close()
+        o.close()
+        res.evaluations += 4
+        res.cell("directed", "behind-blocking-pop", "served", pop.decode())
+        if got != [[b"bq", b"v1"], resp.OK, [b"bq", b"v2"], b"after-serve"] or early != 0 or mid != 1:
+            res.violation("order/behind-blocking-pop/served", "[%s bq 0, SET flag, %s bq 0, ECHO] in one write, two pushes by another client -> %s; flag existed "
+                          "before the first push: %r, after it: %r (expected [[bq,v1], OK, [bq,v2], 'after-serve'], 0, 1)" % (
+                              pop.decode(), pop.decode(), resp.show(got), early, mid))
     # slow reader: the client stops reading while the replies pile up
     c = srv.client(timeout=60)
     big = b"v" * 10240
